@@ -17,6 +17,7 @@ import (
 	"encoding/json"
 	"fmt"
 	"io"
+	"net"
 	"net/http"
 	"net/http/httptest"
 	"os"
@@ -97,7 +98,20 @@ type dagOut struct {
 	Susp   bool     `json:"susp"`
 	Hist   []runOut `json:"hist"`
 }
+// what the long-lived client (the one behind the API handlers, with its history store and read cache) ANSWERS for a
+// recorded run, next to what the files hold (dagOut.Hist)
+type viewRun struct {
+	Req    string `json:"req"`
+	Status int    `json:"status"`
+	Nodes  []int  `json:"nodes"`
+	Err    string `json:"err,omitempty"`
+}
+type dagView struct {
+	ByReq  []viewRun `json:"byreq"`  // GetStatusByRequestID for every run on file, newest file first
+	Recent []viewRun `json:"recent"` // GetRecentHistory(10)
+}
 type dump struct {
+	View  map[string]dagView `json:"view,omitempty"`
 	Dags  map[string]dagOut `json:"dags"`
 	Argv  [][]string        `json:"argv"`
 	Stops []string          `json:"stops"`
@@ -142,9 +156,11 @@ func main() {
 type liveRun struct {
 	srv *sock.Server
 	req string
+	ln  net.Listener // "!hung": a socket that accepts and never answers (a frozen agent)
 }
 
 type env struct {
+	cli client.Client
 	root, dagsDir, dataDir, suspDir, stubLog string
 	pool                                     []string
 	live                                     map[string]*liveRun
@@ -156,7 +172,11 @@ type env struct {
 func (e *env) loc(name string) string { return filepath.Join(e.dagsDir, name+".yaml") }
 
 func (e *env) setLive(name, req string) error {
-	if l := e.live[name]; l != nil {
+	if l := e.live[name]; l != nil && l.ln != nil {
+		_ = l.ln.Close()
+		delete(e.live, name)
+		_ = os.Remove((&dag.DAG{Location: e.loc(name)}).SockAddr())
+	} else if l != nil {
 		_ = l.srv.Shutdown()
 		delete(e.live, name)
 		time.Sleep(5 * time.Millisecond)
@@ -166,6 +186,28 @@ func (e *env) setLive(name, req string) error {
 		return nil
 	}
 	addr := (&dag.DAG{Location: e.loc(name)}).SockAddr()
+	if req == "!hung" {
+		_ = os.Remove(addr)
+		ln, err := net.Listen("unix", addr)
+		if err != nil {
+			return err
+		}
+		go func() {
+			var held []net.Conn
+			for {
+				c, err := ln.Accept()
+				if err != nil {
+					for _, h := range held {
+						_ = h.Close()
+					}
+					return
+				}
+				held = append(held, c)
+			}
+		}()
+		e.live[name] = &liveRun{req: req, ln: ln}
+		return nil
+	}
 	st := &model.Status{RequestID: req, Name: name, Status: scheduler.StatusRunning,
 		StatusText: scheduler.StatusRunning.String(), PID: model.PID(os.Getpid())}
 	srv, err := sock.NewServer(addr, func(w http.ResponseWriter, r *http.Request) {
@@ -271,6 +313,41 @@ func (e *env) dump() dump {
 		}
 		d.Dags[name] = o
 	}
+	if e.cli != nil {
+		d.View = map[string]dagView{}
+		for _, name := range e.pool {
+			o := d.Dags[name]
+			if l := e.live[name]; len(o.Hist) == 0 || (l != nil && l.ln != nil) {
+				continue // (a frozen agent: every answer would cost the socket timeout)
+			}
+			w := &dag.DAG{Location: e.loc(name), Name: name}
+			var v dagView
+			mk := func(st *model.Status) viewRun {
+				r := viewRun{Req: st.RequestID, Status: int(st.Status)}
+				for _, n := range st.Nodes {
+					r.Nodes = append(r.Nodes, int(n.Status))
+				}
+				return r
+			}
+			for _, h := range o.Hist {
+				if h.Req == "" {
+					continue
+				}
+				st, err := e.cli.GetStatusByRequestID(w, h.Req)
+				if err != nil || st == nil {
+					v.ByReq = append(v.ByReq, viewRun{Req: h.Req, Status: -1, Err: fmt.Sprint(err)})
+				} else {
+					v.ByReq = append(v.ByReq, mk(st))
+				}
+			}
+			for _, sf := range e.cli.GetRecentHistory(w, 10) {
+				if sf != nil && sf.Status != nil {
+					v.Recent = append(v.Recent, mk(sf.Status))
+				}
+			}
+			d.View[name] = v
+		}
+	}
 	if fis, err := os.ReadDir(e.dagsDir); err == nil {
 		for _, fi := range fis {
 			if !inPool[fi.Name()] {
@@ -316,6 +393,7 @@ func runCase(c caseIn) (res caseOut) {
 
 	ds := dsclient.NewDataStores(e.dagsDir, e.dataDir, e.suspDir, dsclient.DataStoreOptions{LatestStatusToday: true})
 	cli := client.New(ds, stub, root, e.lg)
+	e.cli = cli
 	h := fdag.NewHandler(&fdag.NewHandlerArgs{Client: cli}, nil, "/api/v1")
 	swaggerSpec, err := loads.Analyzed(restapi.SwaggerJSON, "")
 	if err != nil {
